@@ -16,7 +16,7 @@ from kv.pool import fan_out
 from kv.report import VERIF
 
 PID = "C18"
-FORMS = ["import", "from", "from_as", "star", "import_as"]
+FORMS = ["import", "from", "from_as", "star", "import_as", "from_dot_path", "from_updown_path"]
 
 class Mod:
     def __init__(self, name, kind="file", deps=(), fail=None, has_test=True, has_main=True):
@@ -30,7 +30,10 @@ def import_lines(importer, dep, form, guarded):
            "from": ("from %s import x_%s" % (dep, dep), "x_%s" % dep),
            "from_as": ("from %s import x_%s as y" % (dep, dep), "y"),
            "star": ("from %s import *" % dep, "x_%s" % dep),
-           "import_as": ("import %s as alias" % dep, "alias.x_%s" % dep)}[form]
+           "import_as": ("import %s as alias" % dep, "alias.x_%s" % dep),
+           # other spellings of the same file: the module must still run once
+           "from_dot_path": ("from './%s' import x_%s" % (dep, dep), "x_%s" % dep),
+           "from_updown_path": ("from 'sub/../%s' import x_%s" % (dep, dep), "x_%s" % dep)}[form]
     if guarded:
         return ["%s = ||" % fn, "  try", "    " + use[0], "    print 'ok %s<-%s {%s}'" % (importer, dep, use[1]), "  catch _", "    print 'err %s<-%s'" % (importer, dep), "%s()" % fn]
     return ["%s = ||" % fn, "  " + use[0], "  print 'ok %s<-%s {%s}'" % (importer, dep, use[1]), "%s()" % fn]
@@ -56,14 +59,14 @@ def write_graph(root_dir, mods):
     """Writes the module files. Directory modules keep their dependencies inside their directory: a dependency `d` of the
     directory module `m` is the file m/d.koto (a copy of module d's text whose markers carry the suffix @m), and the
     top-level d.koto is the decoy that must not be loaded through m."""
-    os.makedirs(root_dir, exist_ok=True)
+    os.makedirs(os.path.join(root_dir, "sub"), exist_ok=True)
     by_name = {m.name: m for m in mods}
     for m in mods:
         if m.kind in ("file", "both"):
             open(os.path.join(root_dir, m.name + ".koto"), "w").write(module_text(m))
         if m.kind in ("dir", "both"):
             d = os.path.join(root_dir, m.name)
-            os.makedirs(d, exist_ok=True)
+            os.makedirs(os.path.join(d, "sub"), exist_ok=True)
             open(os.path.join(d, "main.koto"), "w").write(module_text(m, variant="" if m.kind == "dir" else "#dir"))
             if m.kind == "dir":
                 for dep, _, _ in m.deps:
